@@ -640,13 +640,15 @@ func checkCreateEventV3(event PDU, sender spec.UserID, knownRoomVersion KnownRoo
 			}
 		}
 	}
+	// "If the event has a room_id, reject": any room_id member counts, also an
+	// empty string or null.
 	ev := struct {
-		RoomID string `json:"room_id"`
+		RoomID spec.RawJSON `json:"room_id"`
 	}{}
 	if err := unmarshalExact(event.JSON(), &ev); err != nil {
 		return errorf("create event cannot be valid json: %s", err.Error())
 	}
-	if ev.RoomID != "" {
+	if len(ev.RoomID) > 0 {
 		return errorf("create event must not have a room_id set")
 	}
 
